@@ -4,9 +4,16 @@
 #include "verif.h"
 #include GEN_H
 
+/* PINMASK (optional): bit i set <=> entry i stays symbolic; the other entries are pinned to the identity's.  Pinned families make the
+   4x4 pairs cheap enough for the quick tier while still covering every routing decision (affine test, pivot search) on the symbolic entries. */
+#ifdef PINMASK
+#define PIN(m, DIM) for (int i_ = 0; i_ < DIM * DIM; i_++) if (!(((unsigned)PINMASK >> i_) & 1u)) m[i_] = (i_ / DIM == i_ % DIM) ? 1.0f : 0.0f;
+#else
+#define PIN(m, DIM)
+#endif
 #define MPAIR(NAME, DIM, FA, FB, EXCID)                                                                       \
     HARNESS(h_##NAME)                                                                                         \
-    {   INA(f32, m, DIM * DIM);                                                                               \
+    {   INA(f32, m, DIM * DIM); PIN(m, DIM)                                                                   \
         f32 a[DIM * DIM], b0[DIM * DIM], b1[DIM * DIM];                                                       \
         for (int i = 0; i < DIM * DIM; i++) { a[i] = 7; b0[i] = 7; b1[i] = 7; }                               \
         FA((void*)m, (void*)a);                                                                               \
@@ -33,7 +40,7 @@ MPAIR(gjInvert44, 4, w_gjinvert44f, w_gjinvertb44f, INVARG)
 /* in-place forms leave exactly what the value-returning forms return (C06-O3) */
 #define INPLACE(NAME, DIM, FA, FB)                                                                            \
     HARNESS(h_##NAME)                                                                                         \
-    {   INA(f32, m, DIM * DIM);                                                                               \
+    {   INA(f32, m, DIM * DIM); PIN(m, DIM)                                                                   \
         f32 a[DIM * DIM], b[DIM * DIM];                                                                       \
         for (int i = 0; i < DIM * DIM; i++) { a[i] = 7; b[i] = 7; }                                           \
         FA((void*)m, (void*)a); FB((void*)m, (void*)b);                                                       \
